@@ -148,7 +148,7 @@ func runReplica(w *World, alt bool) (*World, error) {
 	r.Replica = true
 	for _, st := range w.Executed {
 		switch st.Kind {
-		case KBegin, KTx:
+		case KBegin, KTx, KSim:
 			r.Exec(st)
 			if alt && st.Alt != nil && st.Alt.CrashAfter {
 				r.Exec(&Step{Kind: KCrash})
@@ -165,6 +165,9 @@ func runReplica(w *World, alt bool) (*World, error) {
 		}
 		if len(r.Harness) > 0 {
 			return r, fmt.Errorf("replica harness failure: %v", r.Harness)
+		}
+		if r.Aborted {
+			break
 		}
 	}
 	return r, nil
@@ -184,6 +187,10 @@ func (c *C10) End(w *World) {
 			w.HarnessFail("%v", err)
 			return
 		}
+		if r.Aborted {
+			w.Violate("R4", "replica-cannot-commit-replayed-block", "%s: the store refuses to commit a block re-delivered after a crash (it produced a different state than the one partially persisted)", name)
+			return
+		}
 		for k, v := range r.Stats.Faults {
 			if k == "F7_crash_midblock" || k == "F8_torn_commit" || k == "F9_clean_restart" || k == "F8_disk_write_error" {
 				w.Stats.Faults[k+"_replicaQ"] += v
@@ -200,6 +207,15 @@ func (c *C10) End(w *World) {
 		}
 	}
 	w.Probe("c10_three_executions_compared")
+}
+
+// CommitPanic: the store refused to commit a block.
+func (c *C10) CommitPanic(w *World, msg string) {
+	if w.Replica {
+		w.Aborted = true
+		return
+	}
+	w.Violate("R4", "replayed-block-commits-to-different-state", "the node cannot commit height %d: %s (a block re-delivered after a crash produced a different state than the one partially persisted)", w.curBlock.Height, firstLine(msg))
 }
 
 func (c *C10) NonTrivial(w *World) bool { return c.crashes >= 1 && c.failed >= 1 }
